@@ -4,7 +4,7 @@
    One step is mathematics outside this development: the long-run mass share of component i under
    independent picks with law p and mean masses m is p_i m_i / sum_j p_j m_j (renewal-reward). *)
 From Coq Require Import List ZArith QArith Bool String.
-From GBS Require Import Model.PyStr Model.Num Model.Bond Model.Select Model.Sys Model.SysGen Proofs.SysGenP Src.SrcSysGen Proofs.SysGenSrcP.
+From GBS Require Import Model.PyStr Model.Num Model.Bond Model.Select Model.Sys Model.SysGen Proofs.SysGenP Src.SrcSysGen Proofs.SysGenSrcP Src.SrcSys Proofs.SysSrcP.
 Import ListNotations.
 Open Scope Q_scope.
 
@@ -46,3 +46,9 @@ Print Assumptions C14_refuted.
 
 Example C14_example : nth_error (share (comp_law [30; 70]) [50; 50]) 0 = Some (30 / (30 + (70 + 0)) * 50 / (30 / (30 + (70 + 0)) * 50 + (70 / (30 + (70 + 0)) * 50 + 0))).
 Proof. reflexivity. Qed.
+
+(* tie T: the shares the picks are made with are those of _estimate_system_molecular_weight, whose bookkeeping written over the decisions
+   REGENERATED from system.py / mixture.py (Src/SrcSys.v) is Model/Sys.v's estimate -- the function comp_law is applied to *)
+Theorem C14_shares_are_source : forall cs smw, estimate_src cs smw = estimate cs smw.
+Proof. exact estimate_is_source. Qed.
+Print Assumptions C14_shares_are_source.
